@@ -21,10 +21,13 @@ int main(int argc, char** argv) {
     std::string path = dir + "/c12_native_" + std::to_string((long)getpid());
     return hv::run([&](std::string const& line) -> std::string {
         auto w = hv::words(line);
-        if (w.size() != 8 || w[0] != "rt") return "bad-op";
-        std::string const &fmt = w[1], &pix = w[2], &org = w[3], &dev = w[4];
-        int W = (int)hv::to_ll(w[5]), H = (int)hv::to_ll(w[6]); bytes px = unhex(w[7]);
-#define RT(F, P, TAG, IMG, PL, ALT) if (fmt == F && pix == P) return round_trip<gil::TAG, gil::IMG, 1, PL, ALT>(org, dev, W, H, px, path, true);
+        //   dsts <fmt> <pix> <w> <h> <hex>   ->  <bytes via file name> | fp same|differs:<offset> | ss … | of …
+        bool dsts = w.size() == 6 && w[0] == "dsts";
+        if (!dsts && (w.size() != 8 || w[0] != "rt")) return "bad-op";
+        std::string const &fmt = w[1], &pix = w[2], &org = w[dsts ? 1 : 3], &dev = w[dsts ? 1 : 4];
+        int W = (int)hv::to_ll(w[dsts ? 3 : 5]), H = (int)hv::to_ll(w[dsts ? 4 : 6]); bytes px = unhex(w[dsts ? 5 : 7]);
+#define RT(F, P, TAG, IMG, PL, ALT) if (fmt == F && pix == P) { if (dsts) return destinations<gil::TAG, gil::IMG, 1>(W, H, px, path); \
+            return round_trip<gil::TAG, gil::IMG, 1, PL, ALT>(org, dev, W, H, px, path, true); }
 #if C12_SEL == 0 || C12_SEL == 1
         RT("bmp", "rgb8", bmp_tag, rgb8_image_t, gil::rgb8_planar_image_t, gil::bgr8_image_t)
 #endif
@@ -40,7 +43,8 @@ int main(int argc, char** argv) {
 #if C12_SEL == 0 || C12_SEL == 5
         // the gray1 writer overruns its row buffer for widths that are not a multiple of 8: run it in a child
         if (fmt == "pnm" && pix.compare(0, 5, "gray1") == 0)   // gray1[-w][-r]: the suffix only selects the model variant
-            return guarded([&] { return round_trip_plain<gil::pnm_tag, gil::gray1_image_t, 1>(org, dev, W, H, px, path, true); });
+            return guarded([&] { return dsts ? destinations<gil::pnm_tag, gil::gray1_image_t, 1>(W, H, px, path)
+                                             : round_trip_plain<gil::pnm_tag, gil::gray1_image_t, 1>(org, dev, W, H, px, path, true); });
 #endif
 #if C12_SEL == 0 || C12_SEL == 6
         RT("targa", "rgb8", targa_tag, rgb8_image_t, gil::rgb8_planar_image_t, gil::bgr8_image_t)
